@@ -14,6 +14,10 @@
 package main
 
 import (
+	"time"
+	"fmt"
+	"sync/atomic"
+	"sync"
 	"encoding/hex"
 	"encoding/json"
 	"os"
@@ -103,6 +107,71 @@ func trEP(i int, kind string, stream bool) scen.EPSpec {
 		e.Beh.K = len(body) / 2
 	}
 	return e
+}
+
+// burstCase: bursts of concurrent clients on one long-lived stack while watchers keep reading the gauges (what a status
+// page poll or another request's least-connections selection does).  After every burst nothing is in flight: the gauge
+// reads 0, and keeps reading 0 when asked again.
+func burstCase(engine, bal string, rounds, clients, watchers int) map[string]any {
+	a, b := stack.NewBackend("A"), stack.NewBackend("B")
+	defer a.Close()
+	defer b.Close()
+	for _, be := range []*stack.Backend{a, b} {
+		be.SetBehaviour(stack.Behaviour{Kind: "ok", Status: 200, Headers: [][2]string{{"Content-Type", "application/json"}}, Body: []byte(`{"ok":true}`)})
+	}
+	s, err := stack.Start(stack.Opts{Vary: stack.VaryFor("c19.burst", engine, bal), Engine: engine, Balancer: bal, Profile: "auto",
+		EPs: []stack.EP{{Name: "A", Type: "openai", Priority: 100, Backend: a}, {Name: "B", Type: "openai", Priority: 100, Backend: b}}})
+	if err != nil {
+		return map[string]any{"start_err": err.Error()}
+	}
+	defer s.Stop()
+	var stop atomic.Bool
+	var wwg sync.WaitGroup
+	for w := 0; w < watchers; w++ {
+		wwg.Add(1)
+		go func() {
+			defer wwg.Done()
+			for !stop.Load() {
+				_ = s.Stats.GetConnectionStats()
+			}
+		}()
+	}
+	req := stack.Request("POST", "/olla/proxy/v1/chat/completions", s.Addr, [][2]string{{"Content-Type", "application/json"}}, []byte(`{"messages":[]}`), false)
+	stale, first, served := 0, "", 0
+	for r := 0; r < rounds; r++ {
+		var wg sync.WaitGroup
+		for k := 0; k < clients; k++ {
+			wg.Add(1)
+			go func() {
+				defer wg.Done()
+				if rp := stack.Do(s.Addr, req, 5*time.Second); rp.Status == 200 {
+					served++
+				}
+			}()
+		}
+		wg.Wait()
+		time.Sleep(2 * time.Millisecond) // the handlers' deferred bookkeeping has run
+		for try := 0; try < 2; try++ {
+			cs := s.Stats.GetConnectionStats()
+			var sum int64
+			for _, v := range cs {
+				sum += v
+			}
+			if sum != 0 && try == 1 {
+				stale++
+				if first == "" {
+					first = fmt.Sprintf("round %d: nothing in flight, gauges read %v (asked twice)", r, cs)
+				}
+			}
+			if sum == 0 {
+				break
+			}
+			time.Sleep(20 * time.Millisecond)
+		}
+	}
+	stop.Store(true)
+	wwg.Wait()
+	return map[string]any{"rounds": rounds, "clients": clients, "watchers": watchers, "stale_rounds": stale, "first": first}
 }
 
 func main() {
@@ -271,6 +340,12 @@ func main() {
 	for i, sc := range scs {
 		c.Count(fam[i] + "." + sc.Engine + "." + sc.Balancer + ".c" + strconv.Itoa(sc.Clients))
 		c.Emit(map[string]any{"kind": "counters", "family": fam[i], "scenario": sc, "impl": out[i]})
+	}
+	for _, engine := range []string{"sherpa", "olla"} {
+		for _, bal := range []string{"least-connections", "priority"} {
+			c.Emit(map[string]any{"kind": "bursts", "engine": engine, "balancer": bal, "impl": burstCase(engine, bal, map[bool]int{false: 250, true: 2500}[tier == "thorough"], 8, 3)})
+			c.Count("bursts." + engine + "." + bal)
+		}
 	}
 	c.Close(map[string]any{"exhaustive": true,
 		"exhaustive_note": "one client: all 14 single behaviours and (priority balancer) all 11x14 (failing first, anything second) pairs per engine, pairs sampled 1/4 on round-robin / least-connections (all in thorough), triples sampled; 16 and 64 clients: every single behaviour ungated and gated, pairs sampled; client abort x 2 framings x 3 balancers x 2 engines; Anthropic route buffered + streaming x 10 mixes"})
